@@ -507,6 +507,11 @@ class Report:
         if rc == 0 and conclusive == 0:
             print("no conclusive case: infrastructure problem")
             return 2
+        nh = sum(1 for i in self.inconclusive if str(i.get("why", "")).startswith("harness"))
+        if rc == 0 and nh:
+            print("%d case(s) could not be judged because the checker itself failed: no verdict" % nh)
+            print("  e.g. %s" % str(self.inconclusive[0])[:600])
+            return 2
         return rc
 
 
